@@ -2,24 +2,72 @@
 
  1. TLC: IntCmp.tla (L1: values as [neg, 16-bit limbs]; Less defined twice) - trichotomy, mutual consistency of
     the six answers, transitivity, agreement with TLA+'s < on small integers, type ranges (IntCmpMC.tla).
- 2. C->S: the real templates, instantiated for all 8 x 8 ordered pairs of {int,uint}{8,16,32,64}_t x 6 functions,
-    run on boundary grids, same-bit-pattern pairs, seeded random operands, exhaustive 8-bit x 8-bit (plus
-    8 x 16 bands in the thorough tier); 25 boundary pairs per type pair are evaluated by the compiler in constant
-    expressions.  TLC evaluates L1 on every recorded case (IntCmpCheck.tla).
+ 2. C->S: the real templates, instantiated for all 15 x 15 ordered pairs of {int,uint}{8,16,32,64}_t, char, wchar_t,
+    char16_t, char32_t, (unsigned) long long, bool x 6 functions, run on boundary grids, same-bit-pattern pairs, seeded
+    random operands; exhaustive sweeps (run-length encoded by the harness, every value checked by TLC) of every
+    8-bit type x every 8-bit type, and of 8-bit values x every value of the 16-bit types (boundary 8-bit values in the
+    quick tier, all in the thorough tier), both argument orders; 49 boundary pairs per type pair are evaluated by the
+    compiler in constant expressions (a separate build; if it does not compile, per-function probes name the function
+    that lost constexpr - a VIOLATION).  Repeated in other builds (g++ -O2, clang++ -O2; -O0 in thorough).
+    TLC evaluates L1 on every recorded case (IntCmpCheck.tla).
 """
 import os, random
 from concurrent.futures import ThreadPoolExecutor
 from vlib import core, tables
 from vlib.core import MachineryError
 
-TYPES = [(True, 8), (False, 8), (True, 16), (False, 16), (True, 32), (False, 32), (True, 64), (False, 64)]
-NAMES = ["int8_t", "uint8_t", "int16_t", "uint16_t", "int32_t", "uint32_t", "int64_t", "uint64_t"]
+# (signed, bits) on the platforms this runs on (x86-64 / aarch64 Linux: plain char measured below, wchar_t 32 bit);
+# the driver reports is_signed/digits of every type and IntCmpCheck.tla checks the operands against THAT
+TYPES = [(True, 8), (False, 8), (True, 16), (False, 16), (True, 32), (False, 32), (True, 64), (False, 64),
+         (True, 64), (False, 64), (True, 8), (True, 32), (False, 16), (False, 32), (False, 1)]
+NAMES = ["int8_t", "uint8_t", "int16_t", "uint16_t", "int32_t", "uint32_t", "int64_t", "uint64_t",
+         "long long", "unsigned long long", "char", "wchar_t", "char16_t", "char32_t", "bool"]
+# how many of them the driver is built with: all 15; 14 if the templates reject bool; 10 if they reject the character types
+# too (as std::cmp_* do: those are integral types but not "integer types", a tree that refuses them keeps the property)
+NT_LEVELS = (15, 14, 10)
+NT = 15
+ID_CHAR, ID_WCHAR = 10, 11
 PER_LINE = 128
+NB = 7                 # boundary values per type in the constant-expression table (driver.cpp -DCE_TABLE)
+FUNCS = ["cmp_equal", "cmp_not_equal", "cmp_less", "cmp_greater", "cmp_less_equal", "cmp_greater_equal"]
+FLAVOURS = {"asan": tables.Flavour("asan"),
+            "O2": tables.Flavour("O2", flags=["-O2"], asan=False),
+            "clangO2": tables.Flavour("clangO2", cxx="clang++", flags=["-O2"], asan=False),
+            "O0": tables.Flavour("O0", flags=["-O0"], asan=False)}
+
+
+def measure_platform(ctx):
+    """signedness of plain char and wchar_t, width of wchar_t: inputs of the generators only (the spec checks the
+    operands against what the driver itself reports)"""
+    src = os.path.join(ctx.work, "plat.cpp")
+    with open(src, "w") as f:
+        f.write('#include <cstdio>\n#include <limits>\nint main(){ std::printf("%d %d %d\\n", (int)std::numeric_limits<char>::is_signed, '
+                '(int)std::numeric_limits<wchar_t>::is_signed, (int)(std::numeric_limits<wchar_t>::digits + std::numeric_limits<wchar_t>::is_signed)); }\n')
+    exe = os.path.join(ctx.work, "plat")
+    rc, o = core.sh([core.CXX, "-std=c++14", src, "-o", exe], timeout=300)
+    if rc != 0:
+        raise MachineryError("platform probe does not compile: " + o[-500:])
+    rc, o = core.sh([exe], timeout=60)
+    cs, ws, wb = [int(x) for x in o.split()]
+    TYPES[ID_CHAR] = (bool(cs), 8)
+    TYPES[ID_WCHAR] = (bool(ws), wb)
+    return {"char_signed": cs, "wchar_t_signed": ws, "wchar_t_bits": wb}
 
 
 def trange(t):
     s, b = TYPES[t]
     return (-(1 << (b - 1)), (1 << (b - 1)) - 1) if s else (0, (1 << b) - 1)
+
+
+def type_pairs(q):
+    """all ordered pairs of the 8 fixed-width types; pairs with the other types: all of them in the thorough tier,
+    in the quick tier every such type against every fixed-width type (both orders) and against itself and its neighbour"""
+    for t in range(NT):
+        for u in range(NT):
+            if t < 8 and u < 8 or not q:
+                yield t, u
+            elif t < 8 or u < 8 or u == t or u == 8 + (t - 8 + 1) % (NT - 8):
+                yield t, u
 
 
 def boundary(t):
@@ -76,9 +124,11 @@ def scripts(ctx):
     rnd = random.Random(ctx.seed * 104729 + 15)
     out = {"grid": [], "pattern": [], "random": [], "constexpr": []}
     nrand = 300 if q else 2500
-    for t in range(8):
-        for u in range(8):
+    for t, u in type_pairs(q):
+        if True:
             bt, bu = boundary(t), boundary(u)
+            if t >= 8 or u >= 8:
+                nrand = 120 if q else 1200
             lo_u, hi_u = trange(u)
             # boundary grid: every boundary value of T against every boundary value of U
             out["grid"] += pack(t, u, [(a, b) for a in bt for b in bu])
@@ -102,66 +152,129 @@ def scripts(ctx):
                     b = rvalue(rnd, u)
                 pairs.append((a, b))
             out["random"] += pack(t, u, pairs)
-            out["constexpr"].append({"op": "CE", "T": t, "U": u, "c": [[i, j] for i in range(5) for j in range(5)]})
-    # exhaustive: every value pair of the four ordered pairs of 8-bit types
-    ex = []
-    for t in (0, 1):
-        for u in (0, 1):
-            (lt, ht), (lu, hu) = trange(t), trange(u)
-            for a in range(lt, ht + 1):
-                ex.append(line(t, u, [(a, b) for b in range(lu, hu + 1)], True))
-    out["exhaustive-8x8"] = ex
-    if not q:
-        # 8 x 16 and 16 x 8: every 8-bit value against bands of 16-bit values around the boundaries
-        bands = []
-        for t8 in (0, 1):
-            for t16 in (2, 3):
-                lo16, hi16 = trange(t16)
-                vs = set()
-                for c in (lo16, -256, -128, 0, 127, 255, 32767, hi16):
-                    vs.update(v for v in range(c - 140, c + 141) if lo16 <= v <= hi16)
-                vs = sorted(vs)
-                (l8, h8) = trange(t8)
-                for a in range(l8, h8 + 1):
-                    bands.append(line(t8, t16, [(a, b) for b in vs], True))
-                    bands.append(line(t16, t8, [(b, a) for b in vs], True))
-        out["bands-8x16"] = bands
+            nrand = 300 if q else 2500
+    for t in range(NT):
+        for u in range(NT):            # the constant-expression table has every ordered type pair in both tiers
+            out["constexpr"].append({"op": "CE", "T": t, "U": u, "c": [[i, j] for i in range(NB) for j in range(NB)]})
+    # exhaustive sweeps.  A sweep case [a]: the harness calls the functions for a against EVERY value b of U and prints
+    # the answers run-length encoded; TLC checks every b of every run.  side 1 = cmp_*(b, a).
+    t8 = [t for t in range(NT) if TYPES[t][1] <= 8]            # int8, uint8, char, bool
+    t16 = [t for t in range(NT) if TYPES[t][1] == 16]          # int16, uint16, char16_t
+    sw = []
+    for t in t8:
+        for u in t8:                                           # every ordered pair of 8-bit types, every value pair
+            lo, hi = trange(t)
+            sw.append({"op": "R", "T": t, "U": u, "side": 0, "c": [[a] for a in range(lo, hi + 1)]})
+    out["sweep-8x8"] = sw
+    sw = []
+    for t in t8:
+        lo, hi = trange(t)
+        if q:
+            avals = sorted({v for v in (lo, lo + 1, -2, -1, 0, 1, 2, 126, 127, 128, 129, hi - 1, hi, rnd.randint(lo, hi), rnd.randint(lo, hi)) if lo <= v <= hi})
+        else:
+            avals = list(range(lo, hi + 1))
+        for u in t16:
+            for side in (0, 1):
+                for i in range(0, len(avals), 32):
+                    sw.append({"op": "R", "T": t, "U": u, "side": side, "c": [[a] for a in avals[i:i + 32]]})
+    out["sweep-8x16"] = sw
     return out
 
 
-def build(ctx):
-    """Build the driver.  If it only compiles without the constant-expression probe, the functions are not
-    usable in constant expressions: that is a violation of the property, not a machinery failure."""
-    drv = os.path.join(ctx.work, "cmp_driver")
-    src = os.path.join(core.HARNESS, "cmp", "driver.cpp")
-    rc, o = core.try_build(ctx, src, drv, asan=True)
+SRC = os.path.join(core.HARNESS, "cmp", "driver.cpp")
+PROBE = os.path.join(core.HARNESS, "cmp", "api_probe.cpp")
+
+
+def determine_types(ctx):
+    """Which operand types do the templates accept?  The standard integer types (ids 0..9) are the property's domain;
+    the character types and bool are driven only if the instantiations compile (a tree that rejects them, as std::cmp_*
+    do, keeps the property).  Sets NT; returns the asan driver (or None after a VIOLATION)."""
+    global NT
+    fl = FLAVOURS["asan"]
+    out = os.path.join(ctx.work, "cmp_driver_" + fl.name)
+    for n in NT_LEVELS[:-1]:
+        rc, o = core.try_build(ctx, SRC, out, flags=["-DNTYPES=%d" % n], asan=True)
+        if rc == 0:
+            NT = n
+            return out
+        ctx.notes.setdefault("operand_types_rejected_by_the_templates", []).append(
+            {"tried": NAMES[:n][-1], "error": " | ".join([l.strip() for l in o.splitlines() if "error" in l][:2])[:400]})
+    NT = NT_LEVELS[-1]
+    return build(ctx, "asan")
+
+
+def build(ctx, flavour="asan"):
+    """-> path of the run-time driver in that build flavour, or None after a VIOLATION (the functions cannot be called)"""
+    fl = FLAVOURS[flavour or "asan"]
+    return tables.build_driver(ctx, "C15", SRC, os.path.join(ctx.work, "cmp_driver_" + fl.name), PROBE, flags=["-DNTYPES=%d" % NT], flavour=fl)
+
+
+def build_ce(ctx, cxx=None):
+    """The constant-expression table: the same driver with -DCE_TABLE (every function evaluated by the compiler for 49
+    boundary pairs of each of the 225 ordered type pairs).  If it does not compile although the run-time driver does,
+    one probe per function tells which of the six is not usable in constant expressions: a VIOLATION each."""
+    name = os.path.basename(cxx or core.CXX)
+    drv = os.path.join(ctx.work, "cmp_driver_ce_" + name)
+    rc, o = core.try_build(ctx, SRC, drv, flags=["-DCE_TABLE", "-DNTYPES=%d" % NT], asan=False, cxx=cxx)
     if rc == 0:
-        return drv, True
-    rc2, o2 = core.try_build(ctx, src, drv, flags=["-DNO_CONSTEXPR_PROBE"], asan=True)
-    if rc2 != 0:
-        raise MachineryError("harness does not compile: %s\n%s" % (src, o2[-5000:]))
-    errs = [l for l in o.splitlines() if "error" in l][:6]
-    ctx.violation("cmp_* are not usable in constant expressions: harness/cmp/driver.cpp compiles only with -DNO_CONSTEXPR_PROBE: "
-                  + " | ".join(errs)[:1500], replay_lines=[{"op": "CE", "T": 0, "U": 7, "c": [[0, 0]]}])
-    return drv, False
+        return drv
+    bad = []
+    for fn in FUNCS:
+        rc1, o1 = core.try_build(ctx, os.path.join(core.HARNESS, "cmp", "ce_probe.cpp"), drv + ".probe", flags=["-DCE_FN=" + fn], asan=False, cxx=cxx)
+        if rc1 != 0:
+            bad.append(fn)
+            errs = [l.strip() for l in o1.splitlines() if "error" in l][:3]
+            os.makedirs(ctx.replays, exist_ok=True)
+            rp = os.path.join(ctx.replays, "ce_probe_%s_%s.cpp" % (fn, name))
+            with open(rp, "w") as f:
+                f.write("// C15 replay: %s -std=c++14 -fsyntax-only -I<xtl include> %s\n#define CE_FN %s\n" % (name, os.path.basename(rp), fn))
+                f.write(open(os.path.join(core.HARNESS, "cmp", "ce_probe.cpp")).read())
+            ctx.violation("xtl::%s is not usable in constant expressions (%s): %s" % (fn, name, " | ".join(errs)[:1200]), replay_path=rp)
+    if not bad:
+        # the run-time driver builds, the same calls inside constant expressions do not: constant evaluation of one of the
+        # functions fails for some boundary operand (the table holds nothing but such calls)
+        errs = [l.strip() for l in o.splitlines() if "error" in l or "in .constexpr. expansion" in l][:5]
+        os.makedirs(ctx.replays, exist_ok=True)
+        rp = os.path.join(ctx.replays, "ce_table_%s.cpp" % name)
+        with open(rp, "w") as f:
+            f.write("// C15 replay: %s -std=c++14 -fsyntax-only -DCE_TABLE -DNTYPES=%d -I<xtl include> -I/verif/harness/common %s\n" % (name, NT, os.path.basename(rp)))
+            f.write("#define CE_TABLE 1\n#define NTYPES %d\n" % NT)
+            f.write(open(SRC).read())
+        ctx.violation("the six functions evaluated on boundary operands in constant expressions do not compile (%s) although the same "
+                      "calls compile at run time: %s" % (name, " | ".join(errs)[:1500]), replay_path=rp)
+    return None
 
 
 def describe(l):
+    if l["op"] == "R":
+        first, second = (NAMES[l["T"]], NAMES[l["U"]]) if l["side"] == 0 else (NAMES[l["U"]], NAMES[l["T"]])
+        return "cmp_*(%s, %s) for %s = %s against every value of %s" % (first, second, NAMES[l["T"]], l["c"][0][0], NAMES[l["U"]])
     return "cmp_*(%s, %s)%s" % (NAMES[l["T"]], NAMES[l["U"]], " in a constant expression" if l["op"] == "CE" else "")
 
 
 def replay(ctx, path):
-    drv, ce = build(ctx)
-    if not ce:
-        print("VIOLATION property=C15 replay=%s\n  cmp_* not usable in constant expressions" % path)
+    if os.path.basename(path).startswith(("ce_probe_", "ce_table_")):
+        rc, o = core.sh([core.CXX, "-std=c++14", "-fsyntax-only", "-I", core.INCLUDE, "-I", os.path.join(core.HARNESS, "common"), path], timeout=600)
+        if rc == 0:
+            print("replay accepted: the function is usable in constant expressions")
+            return 0
+        print("VIOLATION property=C15 replay=%s\n  %s" % (path, "\n  ".join([l for l in o.splitlines() if "error" in l][:4])))
         return 1
-    return tables.replay(ctx, path, "IntCmpCheck", "IntCmpCheck.cfg", drv, pid="C15")
+
+    def drv_for(bld):
+        if bld in ("ce", "ce-clang"):
+            return build_ce(ctx, "clang++" if bld == "ce-clang" else None)
+        return build(ctx, bld)
+    measure_platform(ctx)
+    if determine_types(ctx) is None:
+        return 1
+    return tables.replay(ctx, path, "IntCmpCheck", "IntCmpCheck.cfg", drv_for, pid="C15")
 
 
 def selftest(ctx):
     lines = [line(0, 7, [(-1, 0), (5, 5), (127, 200)], False), line(3, 2, [(65535, -1), (7, 7), (0, -32768), (1, 2)], True),
-             {"op": "CE", "T": 6, "U": 1, "c": [[0, 4], [2, 2]]}]
-    drv, ce = build(ctx)
+             line(8, 9, [(-1, 1), (0, 0)], False)]
+    drv = determine_types(ctx)
 
     def corrupt(tl, j):
         tl["c"][j][2] ^= 16             # the recorded cmp_less_equal answer
@@ -170,39 +283,73 @@ def selftest(ctx):
 
 def run(ctx):
     q = ctx.quick
-    with ThreadPoolExecutor(2) as ex:      # the model-checking run overlaps with compiling the harness
+    ctx.notes["platform"] = measure_platform(ctx)
+    flavours = ["asan", "O2", "clangO2"] + ([] if q else ["O0"])
+    first = determine_types(ctx)
+    ctx.notes["operand_types"] = NAMES[:NT]
+    if first is None:
+        return core.finish(ctx, "exploration", rule="the conformance driver does not build against this tree; no call was made",
+                           assumptions=[], exhaustive=False)
+    with ThreadPoolExecutor(6) as ex:      # the model-checking run overlaps with compiling the harness
         f1 = ex.submit(core.tlc_model_check, ctx, "IntCmpMC", "IntCmp_mc.cfg" if q else "IntCmp_mc_thorough.cfg",
                        "L1 laws: trichotomy, six answers consistent, two definitions of Less agree, transitivity, ranges",
                        workers=tables.tlc_workers())
-        drv, ce = build(ctx)
+        fce = ex.submit(build_ce, ctx)
+        fce2 = ex.submit(build_ce, ctx, "clang++") if not q else None
+        drvs = {f: d for f, d in zip(flavours[1:], ex.map(lambda f: build(ctx, f), flavours[1:]))}
+        drvs["asan"] = first
         sc = scripts(ctx)
         r = f1.result()
+        ce, ce2 = fce.result(), (fce2.result() if fce2 else None)
     if r["violated"]:
         raise MachineryError("IntCmp.tla violates its own laws (%s): oracle bug, see %s" % (r["violated"], r["outfile"]))
-    if not ce:
-        sc.pop("constexpr")
+    if any(d is None for d in drvs.values()):      # the functions cannot be called as the property states: reported by build()
+        return core.finish(ctx, "exploration", rule="the conformance driver does not build against this tree; no call was made",
+                           assumptions=[], exhaustive=False)
+    cel = sc.pop("constexpr")
     jobs = []
     for name, lines in sc.items():
-        n = 1 if name == "constexpr" else (4 if name == "exhaustive-8x8" else 2) if q else 6
+        n = (4 if name.startswith("sweep") else 2) if q else (16 if name == "sweep-8x16" else 6)
         k = max(1, (len(lines) + n - 1) // n)
+        if name == "sweep-8x16":
+            lines = lines[:]
+            random.Random(ctx.seed).shuffle(lines)         # balance the tables (a sweep over bool's two values is cheap)
         for i in range(0, len(lines), k):
-            jobs.append(tables.Job("%s-%d" % (name, i // k), drv, lines[i:i + k]))
+            jobs.append(tables.Job("%s-%d" % (name, i // k), drvs["asan"], lines[i:i + k], bld="asan"))
+    if ce:
+        jobs.append(tables.Job("constexpr-0", ce, cel, bld="ce"))
+    if ce2:
+        jobs.append(tables.Job("constexpr-clang-0", ce2, cel, bld="ce-clang"))
+    for f in flavours[1:]:                                 # other builds: pattern pairs, a slice of the grid, the 8x8 sweeps
+        for name, lines in (("pattern", sc["pattern"]), ("grid", sc["grid"][flavours.index(f)::6]), ("sweep-8x8", sc["sweep-8x8"])):
+            jobs.append(tables.Job("%s-%s-0" % (name, f), drvs[f], lines, bld=f))
+    ctx.notes["build_flavours"] = {f: " ".join([FLAVOURS[f].cxx or core.CXX] + FLAVOURS[f].flags + (["-fsanitize=address"] if FLAVOURS[f].asan else [])) for f in flavours}
+    npairs = len(list(type_pairs(q)))
     ncases = sum(len(l["c"]) for j in jobs for l in j.lines)
-    ctx.log("C->S: %d operand pairs (x 6 functions) in %d tables, 64 type pairs" % (ncases, len(jobs)))
+    ctx.log("C->S: %d cases in %d tables, %d ordered type pairs (%d in the constant-expression table), builds %s" % (ncases, len(jobs), npairs, NT * NT, flavours))
     ctx.sample({"script": [str(sc["pattern"][7]["c"][:3]), str(sc["random"][40]["c"][:2])]})
     ok = tables.validate(ctx, "IntCmpCheck", "IntCmpCheck.cfg", jobs, describe=describe)
+    swept = sum(len(l["c"]) * (trange(l["U"])[1] - trange(l["U"])[0] + 1) for j in jobs for l in j.lines if l["op"] == "R")
     ctx.cov["distinct_nontrivial"] = ncases
-    ctx.cov["evaluations"] = ok * 6
-    ctx.notes["cases_by_family"] = {k: sum(len(l["c"]) for l in v) for k, v in sc.items()}
-    ctx.notes["type_pairs"] = 64
+    ctx.cov["evaluations"] = (ok + swept) * 6
+    ctx.notes["value_pairs_in_sweeps"] = swept
+    ctx.notes["cases_by_family"] = dict({k: sum(len(l["c"]) for l in v) for k, v in sc.items()}, constexpr=sum(len(l["c"]) for l in cel))
+    ctx.notes["type_pairs"] = npairs
     ctx.log("TLC accepted %d of %d recorded operand pairs" % (ok, ncases))
     return core.finish(
         ctx, "exploration",
-        rule="all 64 ordered pairs of {int,uint}{8,16,32,64}_t x 6 functions: boundary grid (min, min+1, -1, 0, 1, max-1, max, "
+        rule="%d ordered pairs of types out of %s (all 64 pairs of the fixed-width types%s) x 6 functions: boundary grid (min, min+1, -1, 0, 1, max-1, max, "
              "2^k-1, 2^k, 2^k+1 for k in 7,8,15,16,31,32,63, halves) x boundary grid, same-bit-pattern and +-1 neighbour pairs, "
-             "seeded random operands; 25 boundary pairs per type pair evaluated in constant expressions; exhaustive 8-bit x 8-bit "
-             "(4 ordered type pairs x 65 536 value pairs)%s; one case = one operand pair with its six returned booleans compared "
-             "by TLC with IntCmp.tla" % ("" if q else "; every 8-bit value x bands (+-140 around 8 boundaries) of 16-bit values, both orders"),
+             "seeded random operands; 49 boundary pairs for each of the %d ordered type pairs evaluated in constant expressions; "
+             "exhaustive sweeps: every value pair of every ordered pair of the types of at most 8 bits, and %s x every "
+             "value of the 16-bit types in both argument orders (%d value pairs swept); one case = one operand pair (or one "
+             "sweep) with its six returned booleans compared by TLC with IntCmp.tla; builds %s"
+             % (npairs, ", ".join(NAMES[:NT]), "; the other types against every fixed-width type and two of themselves" if q else " and all pairs with the other types",
+                NT * NT, "boundary 8-bit values" if q else "every 8-bit value", swept, ", ".join(flavours)),
         assumptions=["the harness projects an operand to [sign, magnitude limbs] by conversion to (u)int64_t",
-                     "bool, char, wchar_t, char16/32_t, (unsigned) long long and __int128 operands are not instantiated"],
+                     "__int128 is not instantiated: under -std=c++14 (strict) libstdc++ does not regard it as an integer type "
+                     "(std::is_signed<__int128> is false) and cmp_less(__int128(-1), (unsigned __int128)1) is false; under -std=gnu++14 "
+                     "it is an extended integer type and the answer is right. The quantifier names 8..64 bit types; recorded as an observation",
+                     "noexcept of the six functions is not part of the statement and is not checked",
+                     "the sweeps compare with TLA+'s own integer comparison (IntLaws: it agrees with the limb definition on every sampled pair)"],
         exhaustive=False)
